@@ -59,6 +59,28 @@ impl<'a> Builder<'a> {
         outs
     }
 
+    /// Leave a proper, non-empty subset of the last node's outputs unconnected
+    /// (empty output name), as exporters do for unused optional outputs.
+    fn maybe_drop_outputs(&mut self, sel: u16) {
+        let Some(node) = self.nodes.last() else { return };
+        let n = node.outputs.len();
+        if n < 2 || sel % 3 != 0 {
+            return;
+        }
+        let mask = 1 + (sel as usize / 3) % ((1usize << n) - 2);
+        let mut dropped = Vec::new();
+        let node = self.nodes.last_mut().unwrap();
+        for i in 0..n {
+            if (mask >> i) & 1 == 1 {
+                dropped.push(std::mem::take(&mut node.outputs[i]));
+            }
+        }
+        while node.outputs.last().map(|o| o.is_empty()).unwrap_or(false) && sel & 0x100 != 0 {
+            node.outputs.pop();
+        }
+        self.vals.retain(|v| !dropped.contains(&v.name));
+    }
+
     /// Register an already named node output as a tensor value.
     fn adopt(&mut self, name: &str, dtype: DType, shape: Vec<usize>, mag: f64) -> usize {
         self.add_val(name, dtype, shape, mag, VKind::Inter, false)
@@ -548,6 +570,7 @@ impl<'a> Builder<'a> {
                     attrs.push(("sorted", Attr::Int(1)));
                 }
                 self.node("TopK", &[x, kc], attrs, vec![(DType::F32, shape.clone(), xv.mag), (DType::I64, shape, xv.shape[axis] as f64)]);
+                self.maybe_drop_outputs(a[3]);
                 true
             }
             NonZero => {
@@ -585,6 +608,22 @@ impl<'a> Builder<'a> {
                     ins.push(self.const_i64(&[], vec![(a[2] % 7) as i64 - 3]));
                 }
                 self.node("Trilu", &ins, vec![("upper", Attr::Int(upper))], vec![(xv.dtype, xv.shape, xv.mag)]);
+                true
+            }
+            Range if a[3] & 4 != 0 => {
+                // ConstantOfShape with a typed value attribute (the base family only uses f32)
+                let rank = (a[0] % 4) as usize;
+                let shape = self.small_shape(a[1], rank, 0, 3);
+                let shape: Vec<usize> = if self.profile.allow_empty_dims { shape } else { shape.iter().map(|d| (*d).max(1)).collect() };
+                let sh = self.const_i64_vec(&shape.iter().map(|d| *d as i64).collect::<Vec<_>>());
+                let dt = [DType::I64, DType::I32, DType::U8, DType::I8, DType::Bool, DType::F32][idx(a[2], 6)];
+                let val = match dt {
+                    DType::F32 => TensorLit::f32(&[1], vec![1.5]),
+                    DType::Bool => TensorLit { dtype: DType::Bool, dims: vec![1], f: vec![], i: vec![1], raw: true },
+                    d => TensorLit { dtype: d, dims: vec![1], f: vec![], i: vec![3], raw: a[2] & 0x100 != 0 },
+                };
+                let attrs = if a[2] & 0x200 != 0 && dt == DType::F32 { vec![] } else { vec![("value", Attr::Tensor(val))] };
+                self.node("ConstantOfShape", &[sh], attrs, vec![(dt, shape, 3.0)]);
                 true
             }
             Range => {
@@ -827,6 +866,7 @@ impl<'a> Builder<'a> {
                             return false;
                         }
                         self.node("DynamicQuantizeLinear", &[x], vec![], vec![(DType::U8, xv.shape, 255.0), (DType::F32, vec![], 1.0), (DType::U8, vec![], 255.0)]);
+                        self.maybe_drop_outputs(a[2]);
                     }
                     3 | 4 => {
                         // MatMulInteger
@@ -1351,6 +1391,7 @@ impl<'a> Builder<'a> {
                     outs.push((DType::F32, vec![dirs, batch, hidden], (seq + 1) as f64));
                 }
                 self.node_named(if lstm { "LSTM" } else { "GRU" }, names, attrs, outs, xv.random);
+                self.maybe_drop_outputs(a[3]);
                 true
             }
             Attn => {
@@ -1398,6 +1439,7 @@ impl<'a> Builder<'a> {
                             outs.push((DType::F32, vec![b, kvh, total, dv], 4.0));
                         }
                         self.node_named("Attention", names, attrs, outs, false);
+                        self.maybe_drop_outputs(a[3] >> 4);
                     }
                     1 => {
                         // com.microsoft MultiHeadAttention with past key/value
@@ -1420,6 +1462,7 @@ impl<'a> Builder<'a> {
                         }
                         self.node_named("MultiHeadAttention", names, vec![("num_heads", Attr::Int(nh as i64))], outs, false);
                         self.set_domain(MS);
+                        self.maybe_drop_outputs(a[3] >> 4);
                     }
                     2 => {
                         // com.microsoft GroupQueryAttention: decode step (seq 1 with past) or first prompt
@@ -1437,6 +1480,7 @@ impl<'a> Builder<'a> {
                         let outs = vec![(DType::F32, vec![b, sq, qh * d], 4.0), (DType::F32, vec![b, kvh, total, d], 4.0), (DType::F32, vec![b, kvh, total, d], 4.0)];
                         self.node_named("GroupQueryAttention", names, vec![("num_heads", Attr::Int(qh as i64)), ("kv_num_heads", Attr::Int(kvh as i64))], outs, false);
                         self.set_domain(MS);
+                        self.maybe_drop_outputs(a[3] >> 4);
                     }
                     _ => {
                         // RotaryEmbedding (ONNX): x [b, heads, s, d], caches [maxpos, d/2], position ids [b, s]
@@ -1461,11 +1505,14 @@ impl<'a> Builder<'a> {
             }
             LayoutAny => {
                 // data-movement ops on u8/i8/int/bool data (the base families mostly pick floats)
-                let dt = [DType::U8, DType::I8, DType::I32, DType::Bool, DType::I64][idx(a[0], 5)];
-                let x = match self.pick_val(s0, |v| v.dtype == dt && !v.shape.is_empty() && v.numel() > 0) {
+                let dt = [DType::U8, DType::I8, DType::I32, DType::Bool, DType::I64, DType::F32][idx(a[0], 6)];
+                // half of the time a fresh constant of rank 1..=6 (ranks > 4 reach the recursive copy paths)
+                let existing = if a[0] & 1 == 0 { self.pick_val(s0, |v| v.dtype == dt && !v.shape.is_empty() && v.numel() > 0) } else { None };
+                let x = match existing {
                     Some(x) => x,
                     None => {
-                        let sh = self.small_shape(a[3], 1 + (a[3] % 3) as usize, 1, 4);
+                        let rank = 1 + (a[3] % 6) as usize;
+                        let sh = self.small_shape(a[3], rank, 1, if rank > 4 { 3 } else { 4 });
                         match dt {
                             DType::U8 | DType::I8 => {
                                 let seed = self.seed ^ a[3] as u32;
